@@ -33,6 +33,9 @@ def run(ctx, replay):
     ctx.model_check("MCPipeline", "MCPipeline.cfg" if thorough else "MCPipeline_quick.cfg", coverage=thorough, timeout=1800)
     # sensitivity: the pre-repair behaviour must violate the property in the model
     ctx.model_check("MCPipeline", "MCPipeline_dev.cfg", expect="violation")
+    # sensitivity: completeStage in four steps (lock section, unlock, pending.Dec(), read of the first error + callback):
+    # an error sampled inside the lock section instead of after pending reached zero must violate ErrorReported
+    ctx.model_check("MCPipeline", "MCPipeline_dev_errsample.cfg", expect="violation")
     # the plan tree of a stage (baseStage.execute): pre-order, first failing operator = outcome of the stage
     ctx.model_check("MCPipelineTree", "MCPipelineTree.cfg" if thorough else "MCPipelineTree_quick.cfg", timeout=1800)
     # sensitivity: "the result of the last child wins" in the child loop must violate the property in the model
@@ -41,10 +44,18 @@ def run(ctx, replay):
     # seeded gate scheduler; scripted plan-tree cases first, then random stage trees with random plan trees
     n = 3000 if thorough else 400
     tr = os.path.join(ctx.scratch, "pipeline.ndjson")
+    # ... and concurrently finishing stages (one failing) in every order of the lock sections and decrements of their
+    # completeStage calls (all 3 / 30 orders of two / three stages, a sample of the 630 orders of four)
     summ, rc, _ = ctx.run_vdrive(["pipeline", "--seed", ctx.seed, "--traces", n, "--out", tr,
-                                  "--stages", 6 if thorough else 5])
+                                  "--stages", 6 if thorough else 5, "--orders", 630 if thorough else 60])
+    for u in summ["unresolved"]:
+        raise vcore.Unresolved("pipeline driver: %s" % u)
     for s in summ["samples"]:
         ctx.sample(s)
+    extra = summ.get("extra") or {}
+    gate = bool(extra.get("completeStage_gate"))
+    ctx.extra["finishing_orders"] = extra.get("finishing_orders")
+    ctx.extra["completeStage_gate"] = gate
     ctx.extra["distinct_schedules"] = summ["distinct"]
     ctx.extra["events"] = summ["events"]
     vcore.validate_all(ctx, "PipelineTrace", "PipelineTrace.cfg", tr, describe=describe)
@@ -69,6 +80,14 @@ def run(ctx, replay):
                 return lines[:i] + lines[i + 1:]
         return None
     vcore.corrupt_selftest(ctx, "PipelineTrace", "PipelineTrace.cfg", tr, drop, "one FinMark event dropped")
+
+    if gate:
+        def drop_unlocked(lines):
+            for i, ln in enumerate(lines):
+                if '"ev":"Unlocked"' in ln:
+                    return lines[:i] + lines[i + 1:]
+            return None
+        vcore.corrupt_selftest(ctx, "PipelineTrace", "PipelineTrace.cfg", tr, drop_unlocked, "one Unlocked event dropped")
 
     def late_op(lines):
         # an operator "runs" after a failed one of the same stage: repeat the line of the failing operator's predecessor
@@ -101,5 +120,6 @@ def run(ctx, replay):
     ctx.assumptions += [
         "operators of the plan trees are scripted (ok/err/panic/not-found); the pipeline, state machine, baseStage.Execute/execute, "
         "the plan nodes and the worker pool are the real code",
-        "schedules are explored at the granularity of the gates (every operator, NextStages, error handler) plus free-running timing",
+        "schedules are explored at the granularity of the gates (every operator, NextStages, error handler, and -- when the "
+        "gate hook of package query is in the tree -- between the unlock and pending.Dec() of completeStage) plus free-running timing",
     ]
